@@ -30,8 +30,29 @@ pub fn value_words(rng: &mut Prng, len: usize) -> Vec<u32> {
     if len == 0 {
         return vec![];
     }
-    let pat = rng.below(13);
+    let pat = rng.below(15);
     let mut v: Vec<u32> = match pat {
+        13 if len >= 3 => {
+            // exactly-half / just-above-half patterns for the f64 rounding (53 bits, then 1, then zeros [+1])
+            let mut v = vec![0; len];
+            v[len - 1] = rng.next_u32() | 0x8000_0000;
+            v[len - 2] = (rng.next_u32() & 0xffff_f800) | 0x400;
+            if rng.chance(1, 2) {
+                v[len - 2] |= 0x800; // odd mantissa: ties-to-even rounds up
+            }
+            v[0] |= rng.below(2) as u32;
+            v
+        }
+        14 if len >= 2 => {
+            // the same for f32 (24 bits, then 1, then zeros [+1])
+            let mut v = vec![0; len];
+            v[len - 1] = (rng.next_u32() & 0xffff_ff00) | 0x8000_0080;
+            if rng.chance(1, 2) {
+                v[len - 1] |= 0x100;
+            }
+            v[0] |= rng.below(2) as u32;
+            v
+        }
         12 => {
             // 2^(32*len - 1): lowest set bit at position 31 or 63 of its native digit
             let mut v = vec![0; len];
@@ -562,6 +583,9 @@ impl<'a> Gen<'a> {
             }
             "export" => {
                 let unsafe_ = self.is_unsafe();
+                if self.rng.chance(1, 10) {
+                    return vec![Step::new(&format!("{pre}.to_str_seq")).i("a", a).i("k", self.rng.below(10) as i128).i("f", self.rng.below(2) as i128)];
+                }
                 let s = match self.rng.below(if self.p.text_heavy { 6 } else { 10 }) {
                     0 | 1 => {
                         let r = if unsafe_ && self.rng.chance(1, 2) { bad_radix(self.rng, true) } else { radix_text(self.rng) };
